@@ -40,6 +40,7 @@ def run(prog, R, tier="quick", only_rule=None):
     from rules.props import c04
     c04.c04h(prog, R, rid="C14.g")
     c14h(prog, R)
+    c02.c02a(prog, R, rid="C14.i")
 
 
 def finishers(prog):
